@@ -47,13 +47,11 @@ func getdataEntries(p *p2p.Peer) (map[model.Hash]int, error) {
 		if f.Command != "getdata" {
 			continue
 		}
-		pl := f.Payload
-		if len(pl) < 1 || pl[0] >= 0xfd || len(pl) != 1+int(pl[0])*36 {
-			return nil, fmt.Errorf("getdata payload of %d bytes, count byte %v", len(pl), pl[:1])
+		hashes, err := parseGetdata(f.Payload)
+		if err != nil {
+			return nil, err
 		}
-		for i := 0; i < int(pl[0]); i++ {
-			var h model.Hash
-			copy(h[:], pl[1+i*36+4:1+i*36+36])
+		for _, h := range hashes {
 			got[h]++
 		}
 	}
